@@ -111,15 +111,17 @@ theorem moveUp_spec (m0 : Mgr) (hI : Inv m0) (x : Nat) : ∀ (l : List Nat) (m :
     Mid m0 m x pend → l.Nodup →
     (∀ u ∈ l, pend u ∧ ∃ n, m0.tbl.node? u = some n ∧ n.lvl = x + 1) →
     (∀ k n, m0.tbl.node? k = some n → n.lvl = x → pend k) →
+    (∀ k, m0.tbl.node? k = none → m.tbl.node? k = none) →
     ∃ m', moveUp x (x + 1) (l.map (trip m0.tbl)) m = (.ok (), m') ∧
-      Mid m0 m' x (fun k => pend k ∧ k ∉ l) := by
+      Mid m0 m' x (fun k => pend k ∧ k ∉ l) ∧
+      (∀ k, m0.tbl.node? k = none → m'.tbl.node? k = none) := by
   intro l
   induction l with
   | nil =>
-    intro m pend hM _ _ _
-    exact ⟨m, rfl, hM.congr (fun k => by simp)⟩
+    intro m pend hM _ _ _ hF
+    exact ⟨m, rfl, hM.congr (fun k => by simp), hF⟩
   | cons u rest ih =>
-    intro m pend hM hnd hl hX
+    intro m pend hM hnd hl hX hF
     rw [List.nodup_cons] at hnd
     obtain ⟨hpu, n, hn, hlv⟩ := hl u List.mem_cons_self
     have hcur : m.tbl.node? u = some n := hM.rel.pending u n hn hpu
@@ -144,15 +146,22 @@ theorem moveUp_spec (m0 : Mgr) (hI : Inv m0) (x : Nat) : ∀ (l : List Nat) (m :
         · exact hnp (hX k nk hnk h1)
     have hrel := hM.rel.setNode hn ⟨x, n.lo, n.hi⟩ (fun _ => rfl) (fun h1 => by omega)
       (fun h1 => by omega) (Or.inr hlv) (Or.inr hX)
-    obtain ⟨m1, hrun, _, hM1⟩ := hM.setNode hpu ⟨x, n.lo, n.hi⟩ hfreshKey hrel
-    obtain ⟨m', hrun', hM'⟩ := ih m1 (fun k => pend k ∧ k ≠ u) hM1 hnd.2 (by
+    obtain ⟨m1, hrun, hm1, hM1⟩ := hM.setNode hpu ⟨x, n.lo, n.hi⟩ hfreshKey hrel
+    have hF1 : ∀ k, m0.tbl.node? k = none → m1.tbl.node? k = none := by
+      intro k hk
+      rw [hm1]
+      show ({ m.tbl with succ := m.tbl.succ.insert u _ } : Tbl).node? k = none
+      rw [node?_insert]
+      have : u ≠ k := by intro e; subst e; rw [hn] at hk; cases hk
+      simp [this, hF k hk]
+    obtain ⟨m', hrun', hM', hF'⟩ := ih m1 (fun k => pend k ∧ k ≠ u) hM1 hnd.2 (by
         intro k hk
         obtain ⟨hp, hh⟩ := hl k (List.mem_cons_of_mem _ hk)
         exact ⟨⟨hp, fun e => hnd.1 (e ▸ hk)⟩, hh⟩) (by
         intro k nk hnk h1
         refine ⟨hX k nk hnk h1, ?_⟩
-        intro e; subst e; rw [hn] at hnk; cases hnk; omega)
-    refine ⟨m', ?_, hM'.congr (fun k => by simp only [List.mem_cons, not_or, and_assoc, ne_eq])⟩
+        intro e; subst e; rw [hn] at hnk; cases hnk; omega) hF1
+    refine ⟨m', ?_, hM'.congr (fun k => by simp only [List.mem_cons, not_or, and_assoc, ne_eq]), hF'⟩
     simp only [List.map_cons]
     have ht : trip m0.tbl u = (u, n.lo, n.hi) := by simp [trip, hn]
     rw [ht]
